@@ -88,26 +88,48 @@ def args? (t : String) : Option Args :=
   | some (as, []) => some as
   | _ => none
 
+def head? : String → Option Spec.Head
+  | "-" => some .any | "id" => some .ident | "new" => some .new_ | "arr" => some .arr | "str" => some .str
+  | "obj" => some .obj | "num" => some .num | "this" => some .this_ | _ => none
+
 def via? (t : String) : Option Via :=
   match t.splitOn ":" with
   | ["d"] => some .direct | ["n"] => some .construct | ["b"] => some .bound | ["i"] => some .implicit
   | ["N"] => some .nativeOnly | ["v", n] => some (.viaNative n)
   | ["ed"] => some .evalDirect | ["ei"] => some .evalIndirect | _ => none
 
-def level? (t : String) : Option Level :=
+/-- a level and the kind of token its call-site offset must point at -/
+def level? (t : String) : Option (Level × Spec.Head) :=
   match t.splitOn "," with
-  | [v, f, n, o, p, fl, as] => do
+  | [v, f, n, o, p, fl, as, hd] => do
     let v ← via? v; let f ← form? f; let o ← int? o; let p ← pres? p; let fl ← fl.toNat?; let as ← args? as
-    pure { via := v, form := f, name := name? n, off := o, pre := p, file := fl, args := as }
+    let hd ← head? hd
+    pure ({ via := v, form := f, name := name? n, off := o, pre := p, file := fl, args := as }, hd)
   | _ => none
 
-def levels? (t : String) : Option (List Level) :=
+def levels? (t : String) : Option (List (Level × Spec.Head)) :=
   if t = "-" then some [] else (t.splitOn ";").mapM level?
+
+/-- the file in which each level's call site lies (the file of the enclosing activation) -/
+def siteFiles : Nat → List (Level × Spec.Head) → List (Nat × Int × Spec.Head)
+  | _, [] => []
+  | cur, (lv, h) :: r =>
+    let inner := match lv.via with
+      | .nativeOnly => cur
+      | _ => lv.file
+    (cur, lv.off, h) :: siteFiles inner r
+
+def headsOK (files : List FileEnt) (sites : List (Nat × Int × Spec.Head)) : Bool :=
+  sites.all (fun (k, off, h) => match files[k]? with
+    | some fe => Spec.headAt fe.src off h
+    | none => h == .any)
 
 def raise? (t : String) : Option Raise :=
   match t.splitOn ":" with
   | ["at", o] => (int? o).map .withAt
+  | ["at", o, _h] => (int? o).map .withAt
   | ["nf", f, o] => do let f ← form? f; let o ← int? o; pure (.nonFn f o)
+  | ["nf", f, o, _h] => do let f ← form? f; let o ← int? o; pure (.nonFn f o)
   | ["sb", f, o] => do let f ← form? f; let o ← int? o; pure (.siteBare f o)
   | ["bare", o] => (int? o).map .bare
   | _ => none
@@ -170,14 +192,31 @@ def handle (ws : List String) : String :=
   | ["trace", lim, fname, s, ls, pre, r, k] =>
     -- s = hex sources joined by `/`: the program, then the fixed pre-statement eval source "1", then eval-level sources
     match int? lim, (s.splitOn "/").mapM src?, levels? ls, pres? pre, raise? r, kind? k, str? fname with
-    | some limit, some (src :: more), some levels, some pre, some raise, some kind, some fname =>
+    | some limit, some (src :: more), some lvh, some pre, some raise, some kind, some fname =>
+      let levels := lvh.map (·.1)
       let sc : Scenario := { levels := levels, pre := pre, raise := raise }
       let files : List FileEnt := { name := fname, src := src } :: more.map (fun s => { name := "", src := s })
+      -- the file of the innermost activation (where the raising construct is)
+      let innerFile := (levels.foldl (fun cur lv => match lv.via with | .nativeOnly => cur | _ => lv.file) 0)
+      let rhead : Spec.Head := match r.splitOn ":" with
+        | ["at", _, h] => (head? h).getD .any
+        | ["nf", _, _, h] => (head? h).getD .any
+        | _ => .any
+      if !(headsOK files (siteFiles 0 lvh ++ [(innerFile, Spec.raiseOff raise, rhead)])) then
+        "offset-does-not-point-at-the-declared-token offset-does-not-point-at-the-declared-token -" else
       let (mn, mm) := errTable kind
       let m := mn ++ "|" ++ flag mm ++ "|" ++ framesOut (trace files limit sc)
       let sp := Spec.errClass kind ++ "|" ++ flag true ++ "|" ++ framesOut (Spec.trace files limit sc)
       reply m sp (traceDev sc kind)
     | _, _, _, _, _, _, _ => "bad-op"
+  | ["climit", tl, sl, n, d] =>
+    -- trace limit tl (`d` = the default of New()), stack-depth limit sl, n × Copy(), error below d nested calls
+    match (if tl = "d" then some newLimits.trace else int? tl), int? sl, n.toNat?, d.toNat? with
+    | some tl, some sl, some n, some d =>
+      let m := traceCount (cloneN n { trace := tl, stack := sl }) d
+      let sp := Spec.traceCount tl d
+      reply (toString m ++ "," ++ toString m) (toString sp ++ "," ++ toString sp) "-"
+    | _, _, _, _ => "bad-op"
   | ["cls", k, _variant] => match kind? k with
     | some kind => reply (caughtOut (caught kind)) (caughtOut (Spec.caught kind)) (if (errTable kind).2 then "-" else "msg_empty")
     | none => "bad-op"
